@@ -8,6 +8,7 @@ FRACS = ["0", "5", "05", "50", "00", "007", "123", "100", "010", "999999", "1000
 
 def run(ctx):
     q = ctx.quick()
+    scanner_mc.dec_mc(ctx)
     scanner_mc.model_check(ctx, "C05")
     prm = dict(kind="dec", upto=131 if q else 3000, rlow=[0, 1, 21, 100, 181, 999] if q else spell.RQUICK_LOW,
                rhigh=[0, 1, 2, 100] if q else spell.RQUICK_HIGH, randn=1000 if q else 50000, seed=ctx.seed % 100000,
